@@ -10,13 +10,15 @@ import (
 // implements garbage collection and a remote branch had been deleted since we
 // last did 'git fetch --prune', then the objects in that branch may have also
 // been deleted on the server if unreferenced. If some refs are missing on the
-// remote, use a more explicit diff command.
-func calcSkippedRefs(remote string) []string {
+// remote, use a more explicit diff command. The second result is true when
+// the remote was reached and has none of the cached branches any more: then no
+// cached ref at all may serve as a 'from' point.
+func calcSkippedRefs(remote string) ([]string, bool) {
 	cachedRemoteRefs, _ := git.CachedRemoteRefs(remote)
 
 	// Since CachedRemoteRefs() only returns branches, request that
 	// RemoteRefs() ignore tags and also return only branches.
-	actualRemoteRefs, _ := git.RemoteRefs(remote, false)
+	actualRemoteRefs, err := git.RemoteRefs(remote, false)
 
 	// The list of remote refs can be very large, so convert them to
 	// a set for faster lookups in the skip calculation loop.
@@ -34,5 +36,6 @@ func calcSkippedRefs(remote string) []string {
 			skippedRefs = append(skippedRefs, "^"+cachedRef.Sha)
 		}
 	}
-	return skippedRefs
+	noneLive := err == nil && len(cachedRemoteRefs) > 0 && len(skippedRefs) == 0
+	return skippedRefs, noneLive
 }
